@@ -765,11 +765,14 @@ def generate_fns(repo):
     return text, items
 
 
-OUT_FNS = ["normalize_uri_element", "normalize_query_string_element", "normalize_uri_path_component", "canonicalize_uri_path"]
+OUT_FNS = ["normalize_uri_element", "normalize_query_string_element", "normalize_uri_path_component", "canonicalize_uri_path",
+           "query_string_to_normalized_map"]
 OUT_TYPES = {"normalize_uri_element": "Nat → Bytes → UriElement → Outcome Bytes", "normalize_query_string_element": "Nat → Bytes → Outcome Bytes",
-             "normalize_uri_path_component": "Nat → Bytes → Outcome Bytes", "canonicalize_uri_path": "Nat → Bytes → Bool → Outcome Bytes"}
+             "normalize_uri_path_component": "Nat → Bytes → Outcome Bytes", "canonicalize_uri_path": "Nat → Bytes → Bool → Outcome Bytes",
+             "query_string_to_normalized_map": "Nat → Bytes → Outcome (List (Bytes × List Bytes))"}
 OUT_STUB = {"normalize_uri_element": "fun _ _ _ => .panic \"untranslated\"", "normalize_query_string_element": "fun _ _ => .panic \"untranslated\"",
-            "normalize_uri_path_component": "fun _ _ => .panic \"untranslated\"", "canonicalize_uri_path": "fun _ _ _ => .panic \"untranslated\""}
+            "normalize_uri_path_component": "fun _ _ => .panic \"untranslated\"", "canonicalize_uri_path": "fun _ _ _ => .panic \"untranslated\"",
+            "query_string_to_normalized_map": "fun _ _ => .panic \"untranslated\""}
 
 def read_enum(toks, name):
     """`enum Name { A, B, … }` (unit variants only) -> [A, B, …] or None."""
@@ -844,7 +847,7 @@ def generate_fns_o(repo):
                 sig = fn_sig(toks, name)
                 if sig is not None:
                     text, ty = rustout.translate_result_fn(name, sig[0], sig[1], sig[2], ctx)
-                    got = "Nat → " + " → ".join(rustout.lean_ty(t).replace("Rust.", "") for t in ty[0]) + " → Outcome " + rustout.lean_ty(ty[1])
+                    got = "Nat → " + " → ".join(rustout.lean_ty(t).replace("Rust.", "") for t in ty[0]) + " → Outcome " + (rustout.lean_ty(ty[1]) if " " not in rustout.lean_ty(ty[1]) else "(" + rustout.lean_ty(ty[1]) + ")")
                     if got != OUT_TYPES[name]:
                         text = None
                     else:
@@ -884,6 +887,37 @@ def generate_fns_o(repo):
         if os.environ.get("SRCGEN_DEBUG"):
             print("rustout: prevalidate", ex)
         text = None
+    # src/auth.rs: SigV4Authenticator::get_string_to_sign
+    STS_TY = "Nat → Bytes → Bytes → Int → Outcome Bytes"
+    text2 = None
+    try:
+        getters = {}
+        for g, gty, shape in (("canonical_request_sha256", "vec", ["self", ".", "canonical_request_sha256"]), ("credential", "string", ["&", "self", ".", "credential"]),
+                              ("request_timestamp", "time", ["self", ".", "request_timestamp"])):
+            sg = fn_sig(atoks, g)
+            if sg is not None and [t.v for t in sg[0]] == ["&", "self"] and [t.v for t in sg[2]] == shape:
+                getters[g] = gty
+        if len(getters) == 3:
+            actx = {"enums": {}, "pure": {}, "monadic": {}, "regexes": {}, "self_getters": getters,
+                    "consts": {k: v[1] for k, v in read_consts(atoks).items() if v[0] == "bytes"}}
+            sg = fn_sig(atoks, "get_string_to_sign")
+            if sg is not None:
+                text2, ty = rustout.translate_result_fn("get_string_to_sign", sg[0], sg[1], sg[2], actx)
+                got = "Nat → " + " → ".join(rustout.lean_ty(t) for t in ty[0]) + " → Outcome " + rustout.lean_ty(ty[1])
+                if got != STS_TY:
+                    text2 = None
+    except Exception as ex:                                         # noqa
+        if os.environ.get("SRCGEN_DEBUG"):
+            print("rustout: get_string_to_sign", ex)
+        text2 = None
+    if text2:
+        defs.append(text2 + "\n")
+        wraps.append(f"def auth.get_string_to_sign? : Option ({STS_TY}) := some fnO.get_string_to_sign")
+        items["auth.get_string_to_sign"] = "read"
+    else:
+        defs.append(f"def get_string_to_sign : {STS_TY} := fun _ _ _ _ => .panic \"untranslated\"   -- stub: outside the translator's subset on this tree\n")
+        wraps.append(f"def auth.get_string_to_sign? : Option ({STS_TY}) := none   -- outside the translator's subset on this tree")
+        items["auth.get_string_to_sign"] = "unreadable"
     if text:
         defs.append(text + "\n")
         wraps.append(f"def auth.prevalidate? : Option ({PRE_TY}) := some fnO.prevalidate")
